@@ -340,6 +340,52 @@ def double_protected(ctx):
             return
 
 
+
+def zeroed_seed_history(ctx):
+    """a cache that obtained its seed key from the DC at exactly the blob's position: unprotecting the valid blob (twice — the second time must
+    still work) and then a copy whose enc_cek / nonce / content were made under the KEK that would follow from an ALL-ZERO (or empty) L2 key
+    — key material the adversary can compute without any secret: it must be refused, whatever earlier calls did to the cached material"""
+    import dataclasses, hashlib
+    from cryptography.hazmat.primitives.ciphers.aead import AESGCM
+    from cryptography.hazmat.primitives import keywrap
+    from dpapi_ng._blob import DPAPINGBlob
+    from props.c06 import template
+    for rec in [r for r in clientsim.standard_roots(real=True) if r.secret_algorithm == "ECDH_P256"][:2]:
+        now = (361, 17, 13)
+        dc = refdc.KeyServer(now=now)
+        dc.add_root(rec)
+        maker = clientsim.Sim(dc, real_crypto=True)
+        maker.now_ns = clientsim.time_ns_for(*now)
+        with maker.world():
+            maker.load(rec)
+            out = maker.protect(b"the valid secret", "S-1-5-21-1-2-3-1103", rk=rec.id)
+        if not out.startswith("done "):
+            continue
+        raw = bytes.fromhex(out[5:])
+        blob = DPAPINGBlob.unpack(raw)
+        kid = blob.key_identifier
+        hn = rec.hash_name.lower()
+        for use_async in (False, True):
+            s = clientsim.Sim(dc, real_crypto=True)           # no root key: the seed comes from the DC, positioned at the blob
+            with s.world():
+                first = s.unprotect(raw, use_async=use_async)
+                second = s.unprotect(raw, use_async=use_async)
+                ctx.count("real:zeroed_seed_history")
+                inp = {"scenario": "zeroed_seed_history", "hash": rec.hash_name, "async": use_async}
+                if first != "done " + hx(b"the valid secret") or second != first:
+                    ctx.violation("the valid blob does not decrypt (again) on a cache keyed by the DC", inp, str((first[:40], second[:40])), "the plaintext twice")
+                    return
+                for weak, l2 in (("all-zero L2 key", bytes(64)), ("empty L2 key", b"")):
+                    kek = refimpl.kbkdf_hmac(hn, l2, refimpl.LABEL, kid.key_info, 32)
+                    cek = hashlib.sha256(b"no secret needed").digest()
+                    forged = template(dataclasses.replace(blob, enc_cek=keywrap.aes_key_wrap(kek, cek),
+                                                          enc_content=AESGCM(cek).encrypt(blob.enc_content_parameters[4:16], b"forged without key material", None)), True)
+                    got = s.unprotect(forged, no_reply=True, use_async=use_async)
+                    if got is not None and got.startswith("done "):
+                        ctx.violation("a modified blob decrypts to different plaintext", {**inp, "forged_under": weak, "blob": hx(forged)[:400]}, got[:80], "error")
+                        return
+
+
 def big_contents(ctx):
     """large plaintexts whose length sits on the chunk sizes a streaming decryptor would use (4 KiB … 128 KiB, ± one AES block), with
     bits of the ciphertext body and of the tag flipped (real crypto, both layouts): a chunked implementation must still verify the tag"""
@@ -506,6 +552,7 @@ def run(ctx):
     cross_group_history(ctx)
     foreign_root_history(ctx)
     double_protected(ctx)
+    zeroed_seed_history(ctx)
 
 
 def search(ctx, broken, disagreements):
@@ -517,6 +564,12 @@ def replay(ctx, payload):
     if v.get("scenario") == "big_contents":
         c2 = type(ctx)(ctx.prop, "quick", ctx.seed)
         big_contents(c2)
+        for x in c2.violations:
+            print(" ", x["what"], x["input"], x["observed"])
+        return not c2.violations
+    if v.get("scenario") == "zeroed_seed_history":
+        c2 = type(ctx)(ctx.prop, "quick", ctx.seed)
+        zeroed_seed_history(c2)
         for x in c2.violations:
             print(" ", x["what"], x["input"], x["observed"])
         return not c2.violations
